@@ -14,7 +14,67 @@ let fopt = function None -> "out-of-fuel" | Some v -> h v
 let grou f ok n = if ok n then h (f n) else "panic"
 let fb = function FieldBytes.FbOk v -> h v | FieldBytes.FbAssertLen | FieldBytes.FbDeserFailed -> "panic"
 
+(* coverage round: conversions, compound assignments, raw byte views *)
+let optb = function None -> "none" | Some true -> "1" | Some false -> "0"
+let popt = function None -> "panic" | Some v -> h v
+let wlist s = if s = "-" then [] else Stdlib.List.map z (Stdlib.String.split_on_char ',' s)
+let wshow = function [] -> "-" | l -> Stdlib.String.concat "," (Stdlib.List.map h l)
+let wopt = function None -> "none" | Some l -> wshow l
+let zbool s = s <> "0"
+
 let eval = function
+  | [ "f64.from_bool"; a ] -> okflag (F64.f64_from_bool (zbool a)) (F64.f64_from_bool_ok (zbool a))
+  | [ "f64.from_u8"; a ] -> okflag (F64.f64_from_u8 (z a)) (F64.f64_from_u8_ok (z a))
+  | [ "f64.from_u16"; a ] -> okflag (F64.f64_from_u16 (z a)) (F64.f64_from_u16_ok (z a))
+  | [ "f64.from_u32"; a ] -> okflag (F64.f64_from_u32 (z a)) (F64.f64_from_u32_ok (z a))
+  | [ "f64.try_from_usize"; a ] -> opt (F64.f64_try_from_usize (z a))
+  | [ "f64.to_bool"; a ] -> optb (F64.f64_to_bool (z a))
+  | [ "f64.to_u8"; a ] -> opt (F64.f64_to_u8 (z a))
+  | [ "f64.to_u16"; a ] -> opt (F64.f64_to_u16 (z a))
+  | [ "f64.to_u32"; a ] -> opt (F64.f64_to_u32 (z a))
+  | [ "f64.to_u64"; a ] -> h (F64.f64_to_u64 (z a))
+  | [ "f64.to_u128"; a ] -> h (F64.f64_to_u128 (z a))
+  | [ "f64.sf_as_int"; a ] -> h (F64.f64_sf_as_int (z a))
+  | [ "f64.conjugate"; a ] -> h (F64.f64_conjugate (z a))
+  | [ "f64.add_assign"; a; b ] -> okflag (F64.f64_add_assign (z a) (z b)) (F64.f64_add_ok (z a) (z b))
+  | [ "f64.sub_assign"; a; b ] -> h (F64.f64_sub_assign (z a) (z b))
+  | [ "f64.mul_assign"; a; b ] -> okflag (F64.f64_mul_assign (z a) (z b)) (F64.f64_mul_ok (z a) (z b))
+  | [ "f64.div_assign"; a; b ] -> h (F64.f64_div_assign (z a) (z b))
+  | [ "f64.base_element"; a; i ] -> popt (F64.f64_base_element (z a) (z i))
+  | [ "f64.try_from_slice"; a ] -> opt (FieldBytes.f64_try_from_slice (bytes_of_hex a))
+  | [ "f64.as_bytes"; a ] -> hex_of_bytes (FieldBytes.f64_as_bytes (z a))
+  | [ "f64.eab"; a ] -> hex_of_bytes (FieldBytes.f64_elements_as_bytes (wlist a))
+  | [ "f64.bae"; o; a ] -> wopt (FieldBytes.f64_bytes_as_elements (z o) (bytes_of_hex a))
+  | [ "f62.from_u8"; a ] -> okflag (F62.f62_from_u8 (z a)) (F62.f62_from_u8_ok (z a))
+  | [ "f62.from_u16"; a ] -> okflag (F62.f62_from_u16 (z a)) (F62.f62_from_u16_ok (z a))
+  | [ "f62.from_u32"; a ] -> okflag (F62.f62_from_u32 (z a)) (F62.f62_from_u32_ok (z a))
+  | [ "f62.to_u64"; a ] -> okflag (F62.f62_to_u64 (z a)) (F62.f62_to_u64_ok (z a))
+  | [ "f62.to_u128"; a ] -> okflag (F62.f62_to_u128 (z a)) (F62.f62_to_u128_ok (z a))
+  | [ "f62.try_from_bytes"; a ] -> opt (F62.f62_try_from_bytes (bytes_of_hex a))
+  | [ "f62.conjugate"; a ] -> h (F62.f62_conjugate (z a))
+  | [ "f62.add_assign"; a; b ] -> okflag (F62.f62_add_assign (z a) (z b)) (F62.f62_add_ok (z a) (z b))
+  | [ "f62.sub_assign"; a; b ] -> okflag (F62.f62_sub_assign (z a) (z b)) (F62.f62_sub_ok (z a) (z b))
+  | [ "f62.mul_assign"; a; b ] -> okflag (F62.f62_mul_assign (z a) (z b)) (F62.f62_mul_ok (z a) (z b))
+  | [ "f62.div_assign"; a; b ] -> fopt (F62.f62_div_assign fuel (z a) (z b))
+  | [ "f62.base_element"; a; i ] -> popt (F62.f62_base_element (z a) (z i))
+  | [ "f62.try_from_slice"; a ] -> opt (FieldBytes.f62_try_from_slice (bytes_of_hex a))
+  | [ "f62.as_bytes"; a ] -> hex_of_bytes (FieldBytes.f62_as_bytes (z a))
+  | [ "f62.eab"; a ] -> hex_of_bytes (FieldBytes.f62_elements_as_bytes (wlist a))
+  | [ "f62.bae"; o; a ] -> wopt (FieldBytes.f62_bytes_as_elements (z o) (bytes_of_hex a))
+  | [ "f128.from_u8"; a ] -> h (F128.f128_from_u8 (z a))
+  | [ "f128.from_u16"; a ] -> h (F128.f128_from_u16 (z a))
+  | [ "f128.from_u32"; a ] -> h (F128.f128_from_u32 (z a))
+  | [ "f128.from_u64"; a ] -> h (F128.f128_from_u64 (z a))
+  | [ "f128.conjugate"; a ] -> h (F128.f128_conjugate (z a))
+  | [ "f128.add_assign"; a; b ] -> okflag (F128.f128_add_assign (z a) (z b)) (F128.f128_add_ok (z a) (z b))
+  | [ "f128.sub_assign"; a; b ] -> okflag (F128.f128_sub_assign (z a) (z b)) (F128.f128_sub_ok (z a) (z b))
+  | [ "f128.mul_assign"; a; b ] -> okflag (F128.f128_mul_assign (z a) (z b)) (F128.f128_mul_ok (z a) (z b))
+  | [ "f128.div_assign"; a; b ] -> fopt (F128.f128_div_assign fuel (z a) (z b))
+  | [ "f128.base_element"; a; i ] -> popt (F128.f128_base_element (z a) (z i))
+  | [ "f128.try_from_slice"; a ] -> opt (FieldBytes.f128_try_from_slice (bytes_of_hex a))
+  | [ "f128.as_bytes"; a ] -> hex_of_bytes (FieldBytes.f128_as_bytes (z a))
+  | [ "f128.eab"; a ] -> hex_of_bytes (FieldBytes.f128_elements_as_bytes (wlist a))
+  | [ "f128.bae"; o; a ] -> wopt (FieldBytes.f128_bytes_as_elements (z o) (bytes_of_hex a))
   | [ "f64.grou"; n ] -> grou F64.f64_get_root_of_unity F64.f64_get_root_of_unity_ok (z n)
   | [ "f62.grou"; n ] -> grou F62.f62_get_root_of_unity F62.f62_get_root_of_unity_ok (z n)
   | [ "f128.grou"; n ] ->
